@@ -21,7 +21,9 @@ type c22In struct {
 	DTLS   DTLSTransportState
 }
 
-func (i c22In) String() string { return fmt.Sprintf("closed=%v/ice=%s/dtls=%s", i.Closed, i.ICE, i.DTLS) }
+func (i c22In) String() string {
+	return fmt.Sprintf("closed=%v/ice=%s/dtls=%s", i.Closed, i.ICE, i.DTLS)
+}
 
 // c22Ref returns the set of acceptable aggregate states: the current W3C text
 // and the older text pion's comments quote differ on a few corner inputs; both
